@@ -86,6 +86,8 @@ pub enum Op {
     RemoteDisconnect { a: u8 },
     DeliverToNet { a: u8, k: u16 },
     DropToNet { a: u8, k: u16 },
+    /// rewrite a datagram on its way to the Net into its other wire representation (payload compressed / not)
+    RecodeToNet { a: u8, k: u16 },
     DeliverToRemote { a: u8, k: u16 },
     /// a datagram in flight from `from` arrives with source address `a`
     CrossFeed { a: u8, from: u8, k: u16 },
@@ -162,6 +164,7 @@ struct Stats {
     applied: u32,
     skipped: u32,
     skipped_pending_feed: u32,
+    recoded: u32,
 }
 
 fn payload(serial: u32, len: usize) -> Vec<u8> {
@@ -493,6 +496,22 @@ impl World {
                     true
                 }
             }
+            Op::RecodeToNet { a, k } => {
+                let a = *a as usize % NADDR;
+                if self.to_net[a].is_empty() {
+                    false
+                } else {
+                    let k = pick(*k, self.to_net[a].len());
+                    match crate::c06_reader_total::recode(&self.to_net[a][k], false) {
+                        Some(alt) => {
+                            self.to_net[a][k] = alt;
+                            self.stats.recoded += 1;
+                            true
+                        }
+                        None => false,
+                    }
+                }
+            }
             Op::DeliverToRemote { a, k } => {
                 let a = *a as usize % NADDR;
                 if self.to_remote[a].is_empty() || self.remotes[a].is_none() {
@@ -726,6 +745,7 @@ fn op_strategy() -> BoxedStrategy<Op> {
         1 => a.clone().prop_map(|a| Op::RemoteDisconnect { a }),
         12 => (a.clone(), k.clone()).prop_map(|(a, k)| Op::DeliverToNet { a, k }),
         1 => (a.clone(), any::<u16>()).prop_map(|(a, k)| Op::DropToNet { a, k }),
+        3 => (a.clone(), k.clone()).prop_map(|(a, k)| Op::RecodeToNet { a, k }),
         10 => (a.clone(), k.clone()).prop_map(|(a, k)| Op::DeliverToRemote { a, k }),
         2 => (a.clone(), a.clone(), any::<u16>()).prop_map(|(a, from, k)| Op::CrossFeed { a, from, k }),
         2 => (a.clone(), prop_oneof![
@@ -797,7 +817,8 @@ fn run_case(c: &Case, reject_open: bool) -> PResult {
         .class_if(s.ignores > 0, "ignore")
         .class_if(s.crossfeeds > 0, "cross_fed_datagram")
         .class_if(s.skipped_pending_feed > 0, "datagram_for_undecided_peer_dropped")
-        .class_if(w.cb.failed > 0, "send_callback_failed"))
+        .class_if(w.cb.failed > 0, "send_callback_failed")
+        .class_if(s.recoded > 0, "datagram_recoded_to_compressed_form"))
 }
 
 pub fn run(ctx: &Ctx) {
